@@ -4,7 +4,7 @@ SEED_SCRATCH=1: apply the change to the scratch worktree /tmp/mut instead of /re
 Each seed is applied to /repo with `git apply`, the check runs, and `git checkout -- .` restores the tree (the committed evidence is restored too)."""
 import json, os, re, subprocess, sys, glob, time
 V = '/verif'
-EXTRA = {'C04-p': ['C04', 'C11'], 'C10-o': ['C10', 'C03'], 'C18-p': ['C18', 'C16'], 'C09-l': ['C09', 'C04'], 'C20-l': ['C20', 'C03'], 'C01-l': ['C01', 'C03'], 'C07-l': ['C07', 'C12'], 'C04-l': ['C04', 'C11'], 'C02-l': ['C02', 'C03'], 'C06-j': ['C06', 'C05'], 'C15-h': ['C15', 'C09'], 'C19-g': ['C19', 'C03'], 'C20-h': ['C20', 'C12'], 'C02-h': ['C02', 'C04'], 'C03-g': ['C03', 'C01'], 'C04-g': ['C04', 'C11'], 'C07-g': ['C07', 'C11', 'C03'], 'C01-e': ['C01', 'C19'], 'C01-f': ['C01', 'C09'], 'C03-f': ['C03', 'C01'], 'C04-e': ['C04', 'C11', 'C03'], 'C04-f': ['C04', 'C07'], 'C06-f': ['C06', 'C05'], 'C04-c': ['C04', 'C07'], 'C04-d': ['C04', 'C11', 'C03'], 'C06-d': ['C06', 'C12'], 'C10-d': ['C10', 'C01'], 'C03-d': ['C03', 'C01', 'C19'], 'C07-c': ['C07', 'C04'], 'C11-d': ['C11', 'C03'], 'C19-d': ['C19', 'C01'], 'C06-b': ['C06', 'C12'], 'C04-b': ['C04', 'C03'], 'C07-a': ['C07', 'C04'], 'C07-b': ['C07', 'C04'], 'C10-b': ['C10', 'C01']}
+EXTRA = {'C14-o': ['C14', 'C10'], 'C19-o': ['C19', 'C09'], 'C04-p': ['C04', 'C11'], 'C10-o': ['C10', 'C03'], 'C18-p': ['C18', 'C16'], 'C09-l': ['C09', 'C04'], 'C20-l': ['C20', 'C03'], 'C01-l': ['C01', 'C03'], 'C07-l': ['C07', 'C12'], 'C04-l': ['C04', 'C11'], 'C02-l': ['C02', 'C03'], 'C06-j': ['C06', 'C05'], 'C15-h': ['C15', 'C09'], 'C19-g': ['C19', 'C03'], 'C20-h': ['C20', 'C12'], 'C02-h': ['C02', 'C04'], 'C03-g': ['C03', 'C01'], 'C04-g': ['C04', 'C11'], 'C07-g': ['C07', 'C11', 'C03'], 'C01-e': ['C01', 'C19'], 'C01-f': ['C01', 'C09'], 'C03-f': ['C03', 'C01'], 'C04-e': ['C04', 'C11', 'C03'], 'C04-f': ['C04', 'C07'], 'C06-f': ['C06', 'C05'], 'C04-c': ['C04', 'C07'], 'C04-d': ['C04', 'C11', 'C03'], 'C06-d': ['C06', 'C12'], 'C10-d': ['C10', 'C01'], 'C03-d': ['C03', 'C01', 'C19'], 'C07-c': ['C07', 'C04'], 'C11-d': ['C11', 'C03'], 'C19-d': ['C19', 'C01'], 'C06-b': ['C06', 'C12'], 'C04-b': ['C04', 'C03'], 'C07-a': ['C07', 'C04'], 'C07-b': ['C07', 'C04'], 'C10-b': ['C10', 'C01']}
 rows = []
 seeds = sorted(os.path.basename(d) for d in glob.glob(V + '/seeded/C*') if os.path.isdir(d))
 only = sys.argv[1:]
